@@ -1173,6 +1173,33 @@ func (h *c17) keyMatrix() {
 // whitelist / limits of an account whose plain sends are not blocked (custody disabled, or enabled without custodians):
 // every recipient class (listed, never listed, removed = tombstone, no list at all) x every send path, and the
 // limit arithmetic with an injected status record (rate, period, uint64 wrap-around, the `== 0` rejection)
+// thresholdMatrix: n custodians, threshold `mode` percent; the custodians approve one by one. The transfer may leave
+// the owner's account only with the approval that takes floor(votes*100/n) to the threshold — in particular not one
+// approval early when votes*100/n has a fractional part of a half or more (2 of 3 at 67 %, 1 of 6 at 17 %, 6 of 7 at 86 %).
+func (h *c17) thresholdMatrix() {
+	cases := [][2]int{{3, 67}, {3, 66}, {3, 34}, {3, 33}, {2, 50}, {2, 51}, {4, 75}, {4, 76}, {6, 17}, {6, 16}, {6, 67}, {7, 29}, {7, 43}, {7, 86}, {7, 15}, {1, 100}, {3, 100}, {5, 1}}
+	for _, c := range cases {
+		n, mode := c[0], uint64(c[1])
+		h.newEpisode(fmt.Sprintf("threshold %d custodians mode %d", n, mode))
+		h.doTx(1, nil, &cmsg{kind: "create", en: true, mode: mode, old: 0, newK: "H1", next: "~", target: "~"})
+		var cust []int
+		for i := 0; i < n; i++ {
+			cust = append(cust, 3+i)
+		}
+		a := mk("addcust", c17K(1, "H1", "~", "~"))
+		a.add = cust
+		h.doTx(1, nil, a)
+		s := &cmsg{kind: "send", to: 2, coins: uk(700000), reward: uk(1000)}
+		h.doTx(1, nil, s)
+		for _, cu := range cust {
+			if h.doTx(cu, nil, &cmsg{kind: "approve", tg: 1, hid: s.hid}) != "ok" {
+				break
+			}
+		}
+		h.r.Count(fmt.Sprintf("threshold-matrix:%d/%d", n, mode))
+	}
+}
+
 func (h *c17) policyMatrix() {
 	bank := func(kind string, to int, n int64) *cmsg { return &cmsg{kind: kind, to: to, coins: uk(n)} }
 	for ci, en := range []bool{false, true} {
@@ -1591,6 +1618,7 @@ func runC17(r *Rec) {
 	h.witnesses()
 	h.keyMatrix()
 	h.policyMatrix()
+	h.thresholdMatrix()
 	modes := []uint64{1, 50, 100}
 	episodes, steps := 45, 60
 	if r.Tier == "thorough" {
@@ -1604,6 +1632,9 @@ func runC17(r *Rec) {
 		mode := modes[e%3]
 		if e%11 == 10 {
 			mode = []uint64{0, 34, 67, 101}[r.Rng.Intn(4)]
+		}
+		if e%4 == 3 {
+			mode = []uint64{67, 34, 17, 29, 43, 86, 51, 76}[r.Rng.Intn(8)]
 		}
 		h.randomEpisode(e, c17b(e%5 == 4), mode, flags&1 != 0, flags&2 != 0, flags&4 != 0, 1+(e/3)%3, steps)
 	}
